@@ -7,6 +7,7 @@ EXTENDS MCStore
 C_Votes    == {<<1, 1>>}
 C_AppIds   == {<<1, 0>>, <<1, 1>>, <<2, 1>>}
 C_Payloads == {<<"a", 1>>}
+C_PayloadsZ == {<<"a", 1>>, <<"", 0>>}
 C_TruncIdx == {0, 1}
 C_PurgeIds == {<<1, 0>>, <<1, 1>>}
 C_CommitIds == {}
@@ -14,6 +15,7 @@ C_Users    == {}
 Cfg(mr, ms, ci, cc, tr) == [mr |-> mr, ms |-> ms, ci |-> ci, cc |-> cc, rb |-> -1, tr |-> tr]
 \* cache limits {0, 1, unlimited} x capacity {0, unlimited}, chunk limits that rotate after 2 / every record
 C_CfgsCache == {Cfg(2, -1, 0, -1, TRUE), Cfg(2, -1, 1, -1, TRUE), Cfg(2, -1, -1, 0, TRUE), Cfg(2, -1, -1, -1, TRUE)}
+C_CfgsCacheZ == {Cfg(2, -1, 0, -1, TRUE), Cfg(2, -1, 1, -1, TRUE), Cfg(2, -1, -1, 0, TRUE)}
 C_CfgsOne   == {Cfg(2, -1, 0, -1, TRUE)}
 C_CfgsRot   == {Cfg(2, -1, -1, -1, TRUE), Cfg(1, -1, -1, -1, TRUE)}
 C_CfgsRot3  == {Cfg(3, -1, -1, -1, TRUE)}
